@@ -1,8 +1,8 @@
-import subprocess, sys, shutil, os, re
+# Seeded faults used to validate vf/props/c18.py (builder + audit rounds 1 and 2). Needs a scratch copy:
+#   rm -rf /tmp/build_C18 && cp -r /repo /tmp/build_C18 && /venv/bin/python selftest/builders/c18_run.py [name-filter ...]
+import subprocess, sys, os, re
 R = '/tmp/build_C18'
-M = R + '/eqsig/multiple.py'
-S = R + '/eqsig/single.py'
-IM = R + '/eqsig/im.py'
+M = R + '/eqsig/multiple.py'; S = R + '/eqsig/single.py'; IM = R + '/eqsig/im.py'
 ORIG = {p: open(p.replace(R, '/repo')).read() for p in (M, S, IM)}
 MUT = [
  ('sin<->cos', M, [('acc_sig_ns.values * np.cos(off_rad) + acc_sig_we.values * np.sin(off_rad)', 'acc_sig_ns.values * np.sin(off_rad) + acc_sig_we.values * np.cos(off_rad)')], 1),
@@ -16,47 +16,64 @@ MUT = [
  ('pad position wrong end (pos lag)', M, [('m_temp = list(om[min_ind:]) + [om[-1]] * abs(min_ind)', 'm_temp = [om[-1]] * abs(min_ind) + list(om[min_ind:])')], 1),
  ('pad VALUE from wrong end (neg lag)', M, [('m_temp = [om[0]] * abs(min_ind) + list(om[:min_ind])', 'm_temp = [om[-1]] * abs(min_ind) + list(om[:min_ind])')], 1),
  ('pad VALUE from wrong end (pos lag)', M, [('m_temp = list(om[min_ind:]) + [om[-1]] * abs(min_ind)', 'm_temp = list(om[min_ind:]) + [om[0]] * abs(min_ind)')], 1),
- ('slices swapped: om[:min_ind] <-> om[min_ind:]', M, [('list(om[:min_ind])', 'list(om[-min_ind:])')], 1),
  ('F17 regress: signal_by_index(1)', M, [('slave_signal = self.signal_by_index(i)\n                slave_average', 'slave_signal = self.signal_by_index(1)\n                slave_average')], 1),
- ('F3 regress: reset_values keeps list', S, [('self._values = np.array(new_values)\n        self._npts = len(self._values)', 'self._values = new_values\n        self._npts = len(new_values)')], 1),
+ ('F3 regress: reset_values keeps list', S, [("        self._values = np.array(new_values)\n        if self._values.dtype.kind in 'iub':\n            self._values = self._values.astype(float)\n        self._npts", "        self._values = new_values\n        self._npts")], 1),
+ ('int->float cast removed (ctor + reset)', S, [("        if self._values.dtype.kind in 'iub':  # integer counts: never compute in a fixed-width integer type\n            self._values = self._values.astype(float)\n", ""), ("        if self._values.dtype.kind in 'iub':\n            self._values = self._values.astype(float)\n", "")], 1),
  ('min_ind not reset per slave', M, [('                    min_diff = np.sum(squares)\n                    min_ind = 0\n', '                    min_diff = np.sum(squares)\n'), ('            for s in range(len(self.signals)):\n                if s != self.master_index:', '            min_ind = 0\n            for s in range(len(self.signals)):\n                if s != self.master_index:')], 1),
  ('same_start diff sign', M, [('diff = slave_average - master_average', 'diff = master_average - slave_average')], 1),
- ('same_start shifts master too', M, [('            if i != self.master_index:\n                slave_signal = self.signal_by_index(i)', '            if True:\n                slave_signal = self.signal_by_index(i)')], 1),
- ('scan spans 360', M, [('180. - angle_off_ns', '360. - angle_off_ns')], 1),
- ('scan offset sign', M, [('np.linspace(0 - angle_off_ns, 180. - angle_off_ns, points)', 'np.linspace(0 + angle_off_ns, 180. + angle_off_ns, points)')], 1),
+ ('same_start re-bases master', M, [("        master_average = self.signal_by_index(self.master_index).get_section_average(start=start, end=end)\n", "        master_average = self.signal_by_index(self.master_index).get_section_average(start=start, end=end)\n        _m = self.signal_by_index(self.master_index)\n        _m.reset_values(_m.values - master_average)\n        master_average = 0.0\n")], 1),
+ ('WAVE2 lag search misses +(steps-1)', M, [('                for i in range(steps):\n                    squares = (om[i:-steps + i] - bm[0:-steps]) ** 2', '                for i in range(steps - 1):\n                    squares = (om[i:-steps + i] - bm[0:-steps]) ** 2')], 1),
+ ('WAVE2 lag search misses -(steps-1)', M, [('                for i in range(steps):\n                    squares = (bm[i:-steps + i] - om[0:-steps]) ** 2', '                for i in range(steps - 1):\n                    squares = (bm[i:-steps + i] - om[0:-steps]) ** 2')], 1),
+ ('WAVE2 np.isclose shortcut in same_start', M, [('                diff = slave_average - master_average\n', '                diff = slave_average - master_average\n                if np.isclose(slave_average, master_average):\n                    continue\n')], 1),
  ('scan values reversed', M, [('return degrees, np.array(pvalues)', 'return degrees, np.array(pvalues)[::-1]')], 1),
- ('lag search range(steps - 1)', M, [('                for i in range(steps):\n                    squares = (bm[i:-steps + i] - om[0:-steps]) ** 2', '                for i in range(steps - 1):\n                    squares = (bm[i:-steps + i] - om[0:-steps]) ** 2')], 1),
- ('bm window uses length of slave 1 only (om/bm swapped in 2nd loop)', M, [('squares = (bm[i:-steps + i] - om[0:-steps]) ** 2', 'squares = (om[i:-steps + i] - bm[0:-steps]) ** 2')], 1),
- ('combine uses we.dt*0+ns (dt wrong)', M, [('new_sig = AccSignal(combo, acc_sig_ns.dt)', 'new_sig = AccSignal(combo, acc_sig_ns.dt * 2)')], 1),
+ ('combine corrupts ns in place', M, [('combo = acc_sig_ns.values * np.cos(off_rad) + acc_sig_we.values * np.sin(off_rad)', 'vals = acc_sig_ns.values\n    vals *= np.cos(off_rad)\n    combo = vals + acc_sig_we.values * np.sin(off_rad)')], 1),
+ ('scan returns module-level buffers', M, [('def compute_rotated(', '_BUF = {}\n\n\ndef compute_rotated('), ('    return degrees, np.array(pvalues)', '    buf = _BUF.setdefault(len(degrees), (np.empty(len(degrees)), np.empty(len(degrees))))\n    buf[0][:] = degrees\n    buf[1][:] = pvalues\n    return buf')], 1),
+ ('Signal aliases caller array + same_start in place', S, [('        self._values = np.array(values)\n', '        self._values = np.asarray(values)\n')], 1, (M, [('slave_signal.reset_values(slave_signal.values - diff)', 'slave_signal.values[:] = slave_signal.values - diff\n                slave_signal.clear_cache()')])),
+ ('time_match keeps shifted view of master buffer (module scratch)', M, [('                slave_signal.reset_values(m_temp)', '                _scratch = globals().setdefault("_SCRATCH", {}).setdefault(len(m_temp), np.empty(len(m_temp)))\n                _scratch[:] = m_temp\n                slave_signal._values = _scratch\n                slave_signal.clear_cache()')], 1),
+ # ---- audit round 2: one mutant per new workload class
+ ('R2 points==1 angle shifted by 180', M, [('    degrees = np.mod(degrees, 360)\n', '    degrees = np.mod(degrees, 360)\n    if points == 1:\n        degrees = np.mod(degrees + 180., 360)\n')], 1),
+ ('R2 chunked scan: last value wrong at multiples of 32 points', M, [('    return degrees, np.array(pvalues)', '    if len(pvalues) % 32 == 0:\n        pvalues[-1] = pvalues[-2]\n    return degrees, np.array(pvalues)')], 1),
+ ('R2 same_start aligns only the first 4 signals', M, [('        for i in range(len(self.signals)):\n            if i != self.master_index:\n                slave_signal', '        for i in range(min(len(self.signals), 4)):\n            if i != self.master_index:\n                slave_signal')], 1),
+ ('R2 time_match matches only the first 4 signals', M, [('            for s in range(len(self.signals)):\n                if s != self.master_index:', '            for s in range(min(len(self.signals), 4)):\n                if s != self.master_index:')], 1),
+ ('R2 single-signal same_start re-bases the only signal', M, [("        master_average = self.signal_by_index(self.master_index).get_section_average(start=start, end=end)\n", "        master_average = self.signal_by_index(self.master_index).get_section_average(start=start, end=end)\n        if len(self.signals) == 1:\n            self.signal_by_index(0).reset_values(self.signal_by_index(0).values - master_average)\n")], 1),
+ ('R2 cross-correlation lag search (drops a^2+b^2; wrong for trends)', M, [('squares = (bm[0:-steps] - om[0:-steps]) ** 2', 'squares = -2 * bm[0:-steps] * om[0:-steps]'), ('squares = (om[i:-steps + i] - bm[0:-steps]) ** 2', 'squares = -2 * om[i:-steps + i] * bm[0:-steps]'), ('squares = (bm[i:-steps + i] - om[0:-steps]) ** 2', 'squares = -2 * bm[i:-steps + i] * om[0:-steps]')], 1),
+ ('R2 tiny-shift shortcut relative to the GLOBAL maximum (1e-13)', M, [('                diff = slave_average - master_average\n', '                diff = slave_average - master_average\n                if abs(diff) < 1e-13 * np.max(np.abs(slave_signal.values)):\n                    continue\n')], 1),
+ ('R2 combine_at_angle returns the ns object itself at angle 0', M, [('    off_rad = np.radians(angle)\n', '    if angle == 0 and isinstance(acc_sig_ns, AccSignal):\n        return acc_sig_ns\n    off_rad = np.radians(angle)\n')], 1),
+ ('R2 clear_cache keeps the memoised peak values', S, [('  # Stockwell transform memoised by eqsig.stockwell\n        self.reset_all_motion_stats()\n', '  # Stockwell transform memoised by eqsig.stockwell\n')], 1),
+ ('R2 negative scan angles wrapped only once', M, [('    degrees = np.mod(degrees, 360)\n', '    degrees = np.where(degrees < 0, degrees + 360., degrees)\n')], 1),
+ ('R2 same_start snaps the window end to the sample grid', M, [("        end = kwargs.get('end', 1)\n", "        end = kwargs.get('end', 1)\n        end = int(end / self.dt) * self.dt\n")], 1),
+ ('R2 shallow __deepcopy__ + in-place add_constant', S, [('    def add_constant(self, constant):', '    def __deepcopy__(self, memo):\n        import copy\n        return copy.copy(self)\n\n    def add_constant(self, constant):'), ('        self.reset_values(self.values + constant)\n', '        self._values += constant\n        self.clear_cache()\n')], 1),
+ ('R2 time_match compares against signal 0 instead of the master', M, [('            bm = self.signal_by_index(self.master_index).values[:length_check]', '            bm = self.signal_by_index(0).values[:length_check]')], 1),
  # ---- behaviour-preserving edits: expect exit 0
  ('CONTROL deg2rad + reordered product', M, [('off_rad = np.radians(angle)', 'off_rad = np.deg2rad(angle)'), ('acc_sig_ns.values * np.cos(off_rad) + acc_sig_we.values * np.sin(off_rad)', 'np.cos(off_rad) * acc_sig_ns.values + np.sin(off_rad) * acc_sig_we.values')], 0),
  ('CONTROL m_temp via concatenate/full, np.sum', M, [('m_temp = [om[0]] * abs(min_ind) + list(om[:min_ind])', 'm_temp = np.concatenate([np.full(abs(min_ind), om[0]), om[:min_ind]])'), ('m_temp = list(om[min_ind:]) + [om[-1]] * abs(min_ind)', 'm_temp = np.concatenate([om[min_ind:], np.full(abs(min_ind), om[-1])])'), ('diff = sum(squares)', 'diff = np.sum(squares)')], 0),
- ('CONTROL degrees % 360, python loop over enumerate', M, [('degrees = np.mod(degrees, 360)', 'degrees = degrees % 360.0')], 0),
- ('CONTROL same_start via add_constant-like in-place new array', M, [('slave_signal.reset_values(slave_signal.values - diff)', 'slave_signal.reset_values(np.subtract(slave_signal.values, diff))')], 0),
+ ('CONTROL degrees % 360', M, [('degrees = np.mod(degrees, 360)', 'degrees = degrees % 360.0')], 0),
+ ('CONTROL same_start via np.subtract', M, [('slave_signal.reset_values(slave_signal.values - diff)', 'slave_signal.reset_values(np.subtract(slave_signal.values, diff))')], 0),
  ('CONTROL np.array(values, copy=True)', S, [('self._values = np.array(values)', 'self._values = np.array(values, copy=True)')], 0),
  ('CONTROL arias via explicit cumsum of panel areas', IM, [("return np.pi / (2 * 9.81) * cumulative_trapezoid(acc ** 2, dx=dt, initial=0)", "a2 = acc ** 2\n    return np.pi / (2 * 9.81) * np.concatenate([[0.0], np.cumsum(0.5 * (a2[1:] + a2[:-1]) * dt)])")], 0),
 ]
-sel = sys.argv[1:] 
-results = []
-for name, path, edits, expect in MUT:
+sel = sys.argv[1:]
+for mut in MUT:
+    name, path, edits, expect = mut[:4]
+    extra = mut[4] if len(mut) > 4 else None
     if sel and not any(s in name for s in sel):
         continue
-    src = ORIG[path]
-    new = src
-    for a, b in edits:
-        assert new.count(a) >= 1, (name, a)
-        new = new.replace(a, b)
-    open(path, 'w').write(new)
+    touched = []
+    for pth, eds in [(path, edits)] + ([extra] if extra else []):
+        new = ORIG[pth]
+        for a, b in eds:
+            assert new.count(a) >= 1, (name, a)
+            new = new.replace(a, b)
+        open(pth, 'w').write(new); touched.append(pth)
     env = dict(os.environ, EQSIG_REPO=R)
     p = subprocess.run(['./check', 'C18'], cwd='/verif', env=env, capture_output=True, text=True)
-    open(path, 'w').write(src)
+    for pth in touched:
+        open(pth, 'w').write(ORIG[pth])
     viol = sorted(set(re.findall(r'clause (\S+)\s+ok=\d+\s+violated=([1-9]\d*)', p.stdout)))
     rep = re.findall(r'replay=(\S+)', p.stdout)
     status = 'OK ' if p.returncode == expect else 'BAD'
-    print('%s %-60s exit=%d expect=%d  %s' % (status, name, p.returncode, expect, ', '.join('%s(%s)' % v for v in viol)), flush=True)
-    if p.returncode not in (0, 1):
-        print(p.stdout[-1500:])
-    if rep:
-        print('      replay:', rep[0], flush=True)
+    print('%s %-62s exit=%d expect=%d  %s' % (status, name, p.returncode, expect, ', '.join('%s(%s)' % v for v in viol)), flush=True)
+    if p.returncode == 2 or (p.returncode != expect):
+        print(p.stdout[-1200:])
 for p in (M, S, IM):
     assert open(p).read() == ORIG[p]
